@@ -1,6 +1,7 @@
 #include "sim.h"
 #include "worker.h"
 
+#include <cerrno>
 #include <csignal>
 #include <cstdio>
 #include <cstdlib>
@@ -72,6 +73,7 @@ static void arm_cpu_timer(double s) {
 void Sim::begin() {
   static bool installed = false;
   if (!installed) { struct sigaction sa; memset(&sa, 0, sizeof sa); sa.sa_handler = on_cpu_budget; sigemptyset(&sa.sa_mask); sa.sa_flags = SA_NODEFER; sigaction(SIGVTALRM, &sa, nullptr); installed = true; }
+  errno = 0;      // process-global state a run must not inherit from the run before it
   active = true;
   if (cpu_budget_s > 0) arm_cpu_timer(cpu_budget_s);
 }
